@@ -233,6 +233,11 @@ def _render_generic(inst: Inst, parent, res):
                 rendered.append("!")  # removed from the new Concat
         if j != len(new_frames):
             return f"?concat-frames:{inner}"
+        # the rule only replaces the frames: every other parameter of the rebuilt Concat is the original's
+        # (seeded change C04-m4 swapped two adjacent boolean knobs)
+        for p in type(self_expr)._parameters:
+            if repr(inner.operand(p)) != repr(self_expr.operand(p)):
+                return f"?param-changed:{p}={inner.operand(p)!r}"
     else:
         for orig in inst.inputs:
             pos = [k for k, o in enumerate(self_expr.operands) if isinstance(o, Expr) and o._name == orig._name]
@@ -876,18 +881,22 @@ def fam_concat(ctx):
             if axis == 1 and len({c for s in fs for c in s}) != sum(len(s) for s in fs):
                 continue
             dfs = [base(s, salt=i) if s else base(["a", "b"], salt=i)[[]] for i, s in enumerate(fs)]
-            try:
-                e = dx.concat(dfs, axis=axis, join=join).expr
-            except Exception:  # noqa: BLE001
-                continue
-            cands = [x for x in e.walk() if isinstance(x, Concat)]
-            if not cands:
-                continue
-            e = cands[0]
-            if not list(e.columns):
-                continue
-            params = f"axis1={int(axis == 1)} inner={int(join == 'inner')} frames={'/'.join(rc(x.columns) for x in e._frames)}"
-            insts.append(Inst("concat", e, list(e._frames), params, list(e.columns), tag=f"{fs}|{axis}|{join}", concat=True))
+            # the knobs are no inputs of the model's rule (it does not look at them); each is set alone so that an exchange is visible
+            for knobs in ({}, {"interleave_partitions": True}, {"ignore_unknown_divisions": True}, {"ignore_order": True}):
+                if knobs and (axis == 1 or len(fs) > 2):
+                    continue
+                try:
+                    e = dx.concat(dfs, axis=axis, join=join, **knobs).expr
+                except Exception:  # noqa: BLE001
+                    continue
+                cands = [x for x in e.walk() if isinstance(x, Concat)]
+                if not cands:
+                    continue
+                e = cands[0]
+                if not list(e.columns):
+                    continue
+                params = f"axis1={int(axis == 1)} inner={int(join == 'inner')} frames={'/'.join(rc(x.columns) for x in e._frames)}"
+                insts.append(Inst("concat", e, list(e._frames), params, list(e.columns), tag=f"{fs}|{axis}|{join}|{sorted(knobs)}", concat=True))
     return run_rule_family(ctx, "Concat._simplify_up", insts, cap_parents=30 if ctx.quick else None)
 
 
@@ -1684,9 +1693,55 @@ def _cases(ctx, broken):
     return CORPUS + cases
 
 
+def _knob_witnesses():
+    """Pruning below an operator that has ORDER / LAYOUT knobs: `q[sel]` computes exactly (row order included) the
+    selection of the unpruned result, with the same divisions.  pandas has no such knobs, so the reference is the
+    query itself without the final selection.  (seeded change C04-m4: Concat._simplify_up exchanged two knobs)"""
+    import dask_expr as dx
+
+    a = pd.DataFrame({"x": np.arange(12), "y": np.arange(12) * 2.0, "z": np.arange(12) % 5}, index=np.arange(0, 24, 2))
+    b = pd.DataFrame({"x": 100 + np.arange(12), "y": np.arange(12) * -1.0, "w": np.arange(12) % 3}, index=np.arange(1, 25, 2))
+    out = []
+    for known in (True, False):
+        da, db = dx.from_pandas(a, npartitions=3, sort=known), dx.from_pandas(b, npartitions=3, sort=known)
+        for knobs in ({"interleave_partitions": True}, {"ignore_unknown_divisions": True}, {"ignore_order": True}, {}):
+            for sel in (["x"], ["y", "x"], "x"):
+                label = f"concat(known={known}, {knobs})[{sel!r}]"
+                try:
+                    full = dx.concat([da, db], **knobs)
+                except Exception:  # noqa: BLE001
+                    continue
+                r_full = e2e.run_or_err(lambda: full.compute())
+                if r_full[0] == "err":
+                    continue
+                want = r_full[1][sel]
+                r = e2e.run_or_err(lambda: full[sel].compute())
+                if r[0] == "err":
+                    out.append((label, "raises", f"{label}: pruned query raises {r[1]}: {r[2]} (unpruned computes)"))
+                    continue
+                got = r[1]
+                if got.index.tolist() != want.index.tolist() or not e2e.same(got, want):
+                    out.append((label, "differs", f"{label}: rows/order differ from the selection of the unpruned result: "
+                                                  f"index {got.index.tolist()[:8]}… vs {want.index.tolist()[:8]}…"))
+                    continue
+                d1, d2 = full[sel].optimize().divisions, full.optimize().divisions
+                if tuple(map(str, d1)) != tuple(map(str, d2)):
+                    out.append((label, "differs", f"{label}: divisions of the pruned plan {d1} != unpruned plan {d2}"))
+                    continue
+                cs = e2e.run_or_err(lambda: full[sel].cumsum().compute())
+                if cs[0] == "ok" and not e2e.same(cs[1], want.cumsum()):
+                    out.append((label, "differs", f"{label}: cumsum over the pruned concat differs from cumsum of the unpruned result"))
+    return out
+
+
 def support(ctx, broken):
     sup = Support()
     seen = set()
+    for label, kind, msg in _knob_witnesses():
+        sup.failures.append(Failure(sig={"site": "Concat._simplify_up", "kind": kind, "case": "knobs"},
+                                    case={"witness": "knobs", "label": label}, detail=msg))
+    sup.executed += 1
+    sup.count("knob_witnesses")
     budget = 25 if ctx.quick and not broken else (240 if ctx.quick else 600)
     import time
 
@@ -1716,6 +1771,9 @@ def support(ctx, broken):
 
 
 def replay(case):
+    if case.get("witness") == "knobs":
+        hits = [w for w in _knob_witnesses() if w[0] == case["label"]]
+        return Failure(sig={"site": "Concat._simplify_up", "kind": hits[0][1], "case": "knobs"}, case=case, detail=hits[0][2]) if hits else None
     res = run_case(case)
     if res is None or res[0] not in _GENUINE:
         return None
